@@ -37,6 +37,7 @@ REQUIRED = {
         'cases-shuffled-rows': 200,
         'cases-with-gap': 500,
         'loads-via-cli-with-bom': 10,
+        'loads-via-subprocess': 2,
         'cases-fixed-offset-zone': 100,
         'cases-with-crlf-line-ends': 100,
         'cases-with-other-number-formats': 100,
@@ -151,14 +152,27 @@ def check_case(ctx, case, via='function', index=0):
         db = os.path.join(ctx.workdir, 'l{}.sqlite3'.format(index))
         if os.path.exists(db):
             os.remove(db)
-        status, exc = data.cli(['load', db, '-p', paths[0], '-e', paths[1], '-z', paths[2], '--timezone', zone])
-        if exc is None and status != 0:
-            exc = RuntimeError('exit status {}'.format(status))
+        argv = ['load', db, '-p', paths[0], '-e', paths[1], '-z', paths[2], '--timezone', zone]
+        if via == 'subprocess':
+            # a real command: fresh interpreter, bin/spowtd, files opened and closed by the process itself
+            import subprocess
+            import sys
+            env = dict(os.environ)
+            env['PYTHONPATH'] = core.REPO
+            pr = subprocess.run([sys.executable, '-B', os.path.join(core.REPO, 'bin', 'spowtd')] + argv, env=env, capture_output=True, text=True, timeout=600)
+            status, exc = pr.returncode, None
+            if status != 0:
+                exc = RuntimeError('exit status {}: {}'.format(status, pr.stderr.strip().splitlines()[-1] if pr.stderr.strip() else ''))
+            rec.hit('loads-via-subprocess')
+        else:
+            status, exc = data.cli(argv)
+            if exc is None and status != 0:
+                exc = RuntimeError('exit status {}'.format(status))
         connection = sqlite3.connect(db)
     try:
         if exc is not None:
             desc = core.describe_exception(exc)
-            if desc['origin'] == 'harness':
+            if desc['origin'] == 'harness' and via == 'function':
                 rec.inconclusive_because('harness exception in load: {}'.format(desc))
                 return
             # domain: >= 2 rainfall instants inside the water-level span, uniform, ET present
@@ -174,7 +188,7 @@ def check_case(ctx, case, via='function', index=0):
         zz = [(to_epoch(t, zone, t0), v) for t, v in case['z']]
         findings, stats = oracle_load.walk(connection, rain, et, zz, case['rstep'], zone)
         rec.hit('loads-accepted-and-walked')
-        if via == 'cli':
+        if via in ('cli', 'subprocess'):
             rec.hit('loads-via-cli-with-bom' if index % 2 == 0 else 'loads-via-cli')
         for name, n in stats.items():
             if name != 'nontrivial':
@@ -205,7 +219,7 @@ def run(ctx):
     n = ctx.share(s['n'])
     ncli = ctx.share(s['cli'])
     for i in range(n):
-        check_case(ctx, gen(rng), 'cli' if i < ncli else 'function', i)
+        check_case(ctx, gen(rng), 'subprocess' if i < 2 else ('cli' if i < ncli else 'function'), i)
 
 
 def replay(ctx, case, module=None):
